@@ -165,6 +165,11 @@ func c06Scenarios(tier string) []*Scenario {
 	add("hedge(bulkhead)", []Spec{{Kind: KHedge, MaxHedges: 1, HDelay: 10}, B(1, 0)}, 1, []ExeSpec{{Script: []Out{{V: 1, Dur: 30, Coop: true}, {V: 2, Dur: 5}}}}, false)
 	add("hedge(bulkhead)-wait", []Spec{{Kind: KHedge, MaxHedges: 1, HDelay: 10}, B(1, W)}, 1, []ExeSpec{{Script: []Out{{V: 1, Dur: 30}, {V: 2, Dur: 5}}}}, false)
 	add("hedge(bulkhead)-2", []Spec{{Kind: KHedge, MaxHedges: 2, HDelay: 10}, B(2, 0)}, 1, []ExeSpec{{Script: []Out{{V: 1, Dur: 40, Coop: true}, {V: 2, Dur: 40, Coop: true}, {V: 3, Dur: 5}}}}, false)
+	// an admitted execution whose own outcome is ErrFull (a full bulkhead further in, or downstream)
+	add("fn-returns-ErrFull", []Spec{B(1, 0)}, 0, []ExeSpec{{Script: []Out{{Err: bulkhead.ErrFull, Dur: 10}}}, {Script: hold(10), StartAt: 20}}, false)
+	add("fn-returns-wrapped-ErrFull", []Spec{B(1, W)}, 0, []ExeSpec{{Script: []Out{{Err: fmt.Errorf("downstream: %w", bulkhead.ErrFull), Dur: 10}}}, {Script: hold(10), StartAt: 1}}, false)
+	add("bulkhead(bulkhead)", []Spec{B(2, 0), B(1, 0)}, 0, []ExeSpec{{Script: hold(30)}, {Script: hold(10), StartAt: 1}, {Script: hold(10), StartAt: 40}}, false)
+	add("bulkhead(bulkhead)-inner", []Spec{B(2, 0), B(1, 0)}, 1, []ExeSpec{{Script: hold(30)}, {Script: hold(10), StartAt: 1}, {Script: hold(10), StartAt: 40}}, false)
 	_ = retrypolicy.ErrExceeded
 	_ = timeout.ErrExceeded
 	return out
